@@ -10,7 +10,6 @@ Local Open Scope Z_scope.
 Local Ltac Zify.zify_post_hook ::= Z.div_mod_to_equations.
 Local Opaque q.
 Local Opaque mulGeneric.
-Set Default Timeout 60.
 
 (* ------------------------------------------------------------------ *)
 (** * The routines in terms of the shared 4-limb building blocks *)
@@ -176,8 +175,9 @@ Proof.
   destruct (double_correct z Hz) as (C1 & M1).
   destruct (add_correct (doubleGeneric z) z C1 Hz) as (C2 & M2).
   split; [ exact C2 | ].
-  rewrite M2, M1. rewrite Z.add_mod_idemp_l by (pose proof q_pos'; lia).
-  f_equal. ring.
+  rewrite M2, M1.
+  change (eqq ((2 * mval z) mod q + mval z) (3 * mval z)).
+  rewrite eqq_mod. replace (2 * mval z + mval z) with (3 * mval z) by ring. reflexivity.
 Qed.
 Print Assumptions mulBy3_correct.
 
@@ -189,11 +189,10 @@ Proof.
   destruct (double_correct (doubleGeneric z) C1) as (C2 & M2).
   destruct (add_correct (doubleGeneric (doubleGeneric z)) z C2 Hz) as (C3 & M3).
   split; [ exact C3 | ].
-  pose proof q_pos' as Hq.
   rewrite M3, M2, M1.
-  rewrite Z.mul_mod_idemp_r by lia.
-  rewrite Z.add_mod_idemp_l by lia.
-  f_equal. ring.
+  change (eqq ((2 * ((2 * mval z) mod q)) mod q + mval z) (5 * mval z)).
+  rewrite !eqq_mod. replace (2 * (2 * mval z) + mval z) with (5 * mval z) by ring.
+  reflexivity.
 Qed.
 Print Assumptions mulBy5_correct.
 
@@ -204,8 +203,9 @@ Proof.
   destruct (setUint64_correct 13 ltac:(unfold u64, W; lia)) as (C1 & M1).
   destruct (mul_correct z (setUint64 13) Hz C1) as (C2 & M2).
   split; [ exact C2 | ].
-  rewrite M2, M1. rewrite Z.mul_mod_idemp_r by (pose proof q_pos'; lia).
-  f_equal. ring.
+  rewrite M2, M1.
+  change (eqq (mval z * (13 mod q)) (13 * mval z)).
+  rewrite eqq_mod. rewrite Z.mul_comm. reflexivity.
 Qed.
 Print Assumptions mulBy13_correct.
 
@@ -278,12 +278,12 @@ Proof.
       destruct (mul_correct (square z) x C1 Hx) as (C2 & _).
       apply IH; [ exact C2 | ].
       rewrite (eqq_mval_mul (square z) x C1 Hx), M1.
-      replace d with (2 * (d / 2) + 1) at 2 by lia.
-      rewrite pow_succ by lia. rewrite Z.mul_comm. reflexivity.
+      replace d with (2 * (d / 2) + 1) at 2 by (clear - Eb; lia).
+      rewrite pow_succ by (clear - Hd0; lia). rewrite Z.mul_comm. reflexivity.
     + apply Z.testbit_false in Eb; [ | lia ]. rewrite <- ?Ed in Eb.
       apply IH; [ exact C1 | ].
       rewrite M1.
-      replace (2 * (d / 2)) with d by lia. reflexivity.
+      replace (2 * (d / 2)) with d by (clear - Eb; lia). reflexivity.
 Qed.
 
 Theorem exp_correct : forall x e, canon x -> 0 <= e ->
